@@ -30,6 +30,10 @@
 (*                          + 1 fruitless resumptions x 1..MaxRetries failed   *)
 (*                          attempts at every position for MaxRetries 2, 3     *)
 (*                          (genB) and the default 5 (genB5).                  *)
+(*                          genJ: a first cut after an id, then the reconnect  *)
+(*                          refused with a JSON-RPC error BODY (status 400,    *)
+(*                          409, 404 x id own / other / null) at attempt 1 or, *)
+(*                          after a failed attempt, 2 (CONSTRAINT JsonErr).    *)
 EXTENDS StreamCli, Json
 
 Viol == {nm \in {"ExactlyOnceInOrder", "NoTruncatedSurfaced", "ResumeCursor", "RealResponseWithinBudget", "CleanFailure",
@@ -137,5 +141,14 @@ ExportB(ok) == IF ok /\ Done THEN PrintT(ToJson([cfg |-> cfg, exp |-> ObsOf, vio
 ExportBudgetsAll == ExportB(BudgetsAll)
 ExportBudgets1 == ExportB(Budgets1)
 ExportBudgets2 == ExportB(Budgets2)
+\* State constraint of the generation configuration "genJ" (a resumption refused with a JSON-RPC error body): the first body is
+\* cut on an event boundary after at least one id has come across (the stream is resumable: the client WILL ask again); the
+\* attempts of the reconnection are refused / answered with a transient status until one is answered with a member of
+\* ErrBodyAnswers (attempt 1, or 2 when the budget allows).  Only behaviours that contain such an answer are exported.
+JsonErr == bodies # <<>> => (bodies[1].knd # "none" /\ bodies[1].cls = "bnd" /\ bodies[1].c # None)
+HasErrBody == \E i \in 1..Len(recon) : \E j \in 1..Len(recon[i].outs) : recon[i].outs[j] \in ErrBodyAnswers
+ExportJsonErr == IF JsonErr /\ Done /\ HasErrBody THEN PrintT(ToJson([cfg |-> cfg, exp |-> ObsOf, viol |-> Viol])) ELSE TRUE
+\* reachability: a call failed because its stream's resumption was refused with a JSON-RPC error body
+NeverRefusedWithErrBody == ~(failed /\ outcome = "err" /\ HasErrBody)
 NeverRetriedStatus == ~(outcome = "resp" /\ \E i \in 1..Len(recon) : \E j \in 1..Len(recon[i].outs) : recon[i].outs[j] \in TransientStatus)
 =============================================================================
